@@ -68,6 +68,16 @@ CHECKS = {
             'Token equality on public fields; a LatexWalkerTokenParseError legitimately ends a '
             'strict reading.',
             'DESIGN.md 5 C11'),
+    'C14': ('exploration',
+            'model-based testing over generated operation histories (Hypothesis) and exhaustive '
+            'short histories; reference model of the category-ordered database',
+            'Thousands of random histories (<= 25 / 50 operations) plus all sequences <= 3 / 4 over '
+            'a 20-operation alphabet; after every step every live database (original and derived) '
+            'is compared with a 100-line reference model on categories, every lookup, iteration '
+            'order, longest-match specials and error types.',
+            'Reference model transcribes the documented semantics; specs compared by identity; one '
+            'documented error condition per call.',
+            'DESIGN.md 5 C14'),
     'C20': ('exploration',
             'bounded-exhaustive enumeration against a counting reference model',
             'Every string <= 7 (quick) / <= 9 (thorough) over {a, NL, CR, space}, every position, '
